@@ -27,10 +27,23 @@ func (server *Server) Set(conn *redis.Conn, key string, val string, opt redis.Se
 	}
 
 	var oldVal []byte
-	hasOldRecord := false
+	now := time.Now()
+	currRecord, hasOldRecord := db.GetRecord(key)
+	// The new value is persistent unless an expiry is given or the old one is kept.
+	ttl := time.Duration(0)
+	switch {
+	case opt.KEEPTTL && hasOldRecord && 0 < currRecord.TTL:
+		ttl = currRecord.Timestamp.Add(currRecord.TTL).Sub(now)
+	case 0 < opt.EX:
+		ttl = opt.EX
+	case 0 < opt.PX:
+		ttl = opt.PX
+	case !opt.EXAT.IsZero():
+		ttl = opt.EXAT.Sub(now)
+	case !opt.PXAT.IsZero():
+		ttl = opt.PXAT.Sub(now)
+	}
 	if opt.NX || opt.XX || opt.GET {
-		var currRecord *Record
-		currRecord, hasOldRecord = db.GetRecord(key)
 		if opt.NX && hasOldRecord {
 			return redis.NewIntegerMessage(0), nil
 		}
@@ -48,8 +61,8 @@ func (server *Server) Set(conn *redis.Conn, key string, val string, opt redis.Se
 	record := &Record{
 		Key:       key,
 		Data:      val,
-		Timestamp: time.Now(),
-		TTL:       0,
+		Timestamp: now,
+		TTL:       ttl,
 	}
 	db.SetRecord(record)
 
